@@ -132,3 +132,54 @@ package csi
 //@   mode bv
 //@   props C11
 //@   decoder
+
+// Index.Add (C04, C15): for records arriving in sorted order (reference ids
+// non-decreasing, possibly skipping ids; starts non-decreasing within a
+// reference) Add never fails and never panics, files the record under the bin
+// reg2bin assigns to it, in a chunk that reaches the record's chunk end, and
+// counts it in the statistics.
+//@ uninterp func recRefID(r Record) int
+//@ uninterp func recStart(r Record) int
+//@ uninterp func recEnd(r Record) int
+//@ trusted func ext:github.com/biogo/hts/csi.Record.RefID
+//@   ensures result == recRefID(self)
+//@ trusted func ext:github.com/biogo/hts/csi.Record.Start
+//@   ensures result == recStart(self)
+//@ trusted func ext:github.com/biogo/hts/csi.Record.End
+//@   ensures result == recEnd(self)
+//@ func validIndexPos
+//@   inline
+//@ func vOffset
+//@   inline
+//@ spec func voff(o bgzf.Offset) int64 = o.File<<16 | int64(o.Block)
+
+//@ func Index.Add
+//@   mode bv
+//@   props C04, C15
+//@   terminates
+//@   requires r != nil && cGeom(i.minShift, i.depth) && len(i.refs) <= 1048576 && 0 <= i.lastRecord
+//@   requires placed ==> (0 <= recRefID(r) && recRefID(r) <= 1048576 && recRefID(r) >= len(i.refs) - 1 &&
+//@       (recRefID(r) == len(i.refs) - 1 ==> recStart(r) >= i.lastRecord) &&
+//@       cValid(int64(recStart(r)), int64(recEnd(r)), i.minShift, i.depth) &&
+//@       int64(recEnd(r)) <= (int64(1) << (i.minShift + 3*i.depth)) - 2)
+//@   requires !placed ==> (0 - 1 <= recStart(r) && 0 - 1 <= recEnd(r) &&
+//@       int64(recStart(r)) <= (int64(1) << (i.minShift + 3*i.depth)) - 2 && int64(recEnd(r)) <= (int64(1) << (i.minShift + 3*i.depth)) - 2)
+//@   modifies all(i), arrays(refIndex), arrays(bin), arrays(bgzf.Chunk), objects(index.ReferenceStats), objects(uint64)
+//@   ghost wa int
+//@   ghost wb int
+//@   at stmt "ref.bins[i].chunks[j].End = c.End" ghost wa = i; wb = j
+//@   at stmt "ref.bins[i].chunks = append(ref.bins[i].chunks, c)" ghost wa = i; wb = len(ref.bins[i].chunks) - 1
+//@   at stmt "ref.bins = append(ref.bins, bin{" ghost wa = len(ref.bins) - 1; wb = 0
+//@   loop 0 invariant @scan 0 <= rangeindex + 1 && rangeindex + 1 <= len(ref.bins)
+//@   loop 1 invariant @scan 0 <= rangeindex + 1 && rangeindex + 1 <= 4611686018427387904
+//@   ensures[C04] @neverfails result == nil
+//@   ensures[C04] @refs placed ==> (len(i.refs) == recRefID(r) + 1 && i.lastRecord == recStart(r))
+//@   ensures[C04] @bin placed ==> (0 <= wa && wa < len(i.refs[recRefID(r)].bins) &&
+//@       cIsBin(i.refs[recRefID(r)].bins[wa].bin, i.depth) &&
+//@       cContains(i.refs[recRefID(r)].bins[wa].bin, int64(recStart(r)), int64(recEnd(r)), i.minShift, i.depth) &&
+//@       0 <= wb && wb < len(i.refs[recRefID(r)].bins[wa].chunks) && i.refs[recRefID(r)].bins[wa].chunks[wb].End == c.End)
+//@   ensures[C15] @mapped placed ==> (i.refs[recRefID(r)].stats != nil && i.refs[recRefID(r)].stats.Mapped ==
+//@       ite(recRefID(r) == old(len(i.refs)) - 1 && old(i.refs[recRefID(r)].stats) != nil, old(i.refs[recRefID(r)].stats.Mapped), 0) + ite(mapped, 1, 0))
+//@   ensures[C15] @unmapped placed ==> (i.refs[recRefID(r)].stats != nil && i.refs[recRefID(r)].stats.Unmapped ==
+//@       ite(recRefID(r) == old(len(i.refs)) - 1 && old(i.refs[recRefID(r)].stats) != nil, old(i.refs[recRefID(r)].stats.Unmapped), 0) + ite(mapped, 0, 1))
+//@   ensures[C15] @unplaced !placed ==> (i.unmapped != nil && *i.unmapped == ite(old(i.unmapped) == nil, 0, old(*i.unmapped)) + 1)
